@@ -4,6 +4,7 @@
 //! The witness search never decides pass/fail (only the verifier does); it attaches failing inputs to red obligations.
 mod c01;
 mod c04;
+mod c05;
 mod c08;
 mod c15;
 
@@ -21,6 +22,7 @@ fn main() {
     let n = match pid {
         "C01" => c01::run(seed),
         "C04" => c04::run(seed, std::env::args().nth(3).as_deref() == Some("thorough")),
+        "C05" => c05::run(seed, std::env::args().nth(3).as_deref() == Some("thorough")),
         "C08" => c08::run(seed),
         "C15" => c15::run(seed),
         _ => {
